@@ -39,14 +39,16 @@ def exprIsArith : DL.Expr → Bool
 def sipWithArith (p : Program) : Bool :=
   p.any (fun r => r.posAtoms.length ≥ 2 && !selfRec p r.hrel && r.cmps.any (fun c => exprIsArith c.2.1 || exprIsArith c.2.2))
 
-def classify (p : Program) : String :=
-  if unionWithJoin p then "union_with_join_heads"
-  else if (C01.nonRecRules p).any C01.pushdownShift then "filter_pushdown_key_shift"
+/-- `jpAlone` = flipping only the join-planning switch already changes the answer (read off the deviating masks) -/
+def classify (p : Program) (jpAlone : Bool) : String :=
+  if jpAlone && hasRepeatedVarAtom p then "repeated_variable_in_atom"
+  else if jpAlone && unionWithJoin p then "union_with_join_heads"
   else if (clausesOf p (answeredRel p)).length ≥ 2 || queryRel p != answeredRel p then "last_head_multi_clause"
   else if sipWithArith p then "sip_rule_with_arithmetic_comparison"
   else if hasRepeatedVarAtom p then "repeated_variable_in_atom"
   else if p.any (fun r => r.hasAgg) && sipDropsColumns p then "sip_drops_columns_under_aggregate"
   else if sipDropsColumns p then "sip_non_variable_column"
+  else if unionWithJoin p then "union_with_join_heads"
   else "unclassified"
 
 /-- which switches, flipped alone from all-off, change the answer (from the masks that differ) -/
@@ -59,21 +61,20 @@ def detail (parts : List String) : String :=
 def cfgsH : Handler := fun args impl =>
   match parseItemsOnly args with
   | some (edb, p) =>
-    let base := (Engine.run {} C01.sipHashDummy (fun _ ts => ts) C01.fuelDefault p edb).toWire
     let parts := impl.splitOn "#"
+    let base := (Engine.run {} C01.sipHashDummy (fun _ ts => ts) C01.fuelDefault p edb).toWire
     let rest := parts.drop 1
     -- the switch-controlled passes have no program-level Lean model: their part of the output is read back
     let m := if rest.isEmpty then base else base ++ "#" ++ joinWith "#" rest
     let nt := !(base.startsWith "err") && base != "{}" && p.any (fun r => r.body.length ≥ 2)
-    { model := m, spec := if rest.isEmpty then specOk else specFail (classify p) (detail rest), nt := nt }
+    { model := m, spec := if rest.isEmpty then specOk else specFail (classify p ((rest.flatMap (fun g => match g.splitOn "@" with | [_, m] => m.splitOn "+" | _ => [])).contains "10000")) (detail rest), nt := nt }
   | none => badReq
 
 def semW : Semiring → String
   | .boolean => "boolean" | .counting => "counting" | .min => "min" | .max => "max"
 
 def irClass (t : Node) : String :=
-  if optPushUnsafe t || optPushUnsafe (specialize t).1 then "pushdown_right_past_join_key"
-  else if analyze t == .boolean && C05.hasAggregate t then "aggregate_under_boolean_annotation"
+  if analyze t == .boolean && C05.hasAggregate t then "aggregate_under_boolean_annotation"
   else if C05.emptyFirstBranch t then "empty_first_union_branch_width"
   else "unclassified"
 
